@@ -107,3 +107,53 @@ Definition step5 (q : ph5) (a : action) : option ph5 :=
 
 Definition init5 (ep : entry_point) : ph5 :=
   match ep with EStart => P5Idle | EOneshot => P5Check params_default NoPlan end.
+
+(* ------------------------------------------------------------------ C07 *)
+(* The poll interval in force after every authenticated response equals the (first) X-Retry-After value,
+   capped; every change is announced and then written and committed before anything else happens; what the
+   policy and the observers are shown is always the interval in force. *)
+Inductive ob7 := ObProto (p : option Z) | ObStore | ObPollStore (p : option Z) | ObCommit.
+Record q7 := { cup7 : bool; p7 : option Z; todo7 : list ob7 }.
+
+Definition poll_store_op (p : option Z) : store_op :=
+  match (match p with Some ns => let us := ns / 1000 in if us <=? i64_max then Some us else None | None => None end) with
+  | Some us => SSetInt K_POLL_INTERVAL us
+  | None => SRemove K_POLL_INTERVAL
+  end.
+Definition store_op_eqb (a b : store_op) : bool :=
+  match a, b with
+  | SSetInt k v, SSetInt k' v' => bytes_eqb k k' && (v =? v')
+  | SSetStr k v, SSetStr k' v' => bytes_eqb k k' && bytes_eqb v v'
+  | SRemove k, SRemove k' => bytes_eqb k k'
+  | SCommit, SCommit => true
+  | _, _ => false
+  end.
+
+Definition step7 (q : q7) (a : action) : option q7 :=
+  match todo7 q with
+  | o :: rest =>
+      let q' := {| cup7 := cup7 q; p7 := p7 q; todo7 := rest |} in
+      match o, a with
+      | ObProto p, AEvent (EvProtocol ps) => if oZ_eqb (ps_poll ps) p then Some q' else None
+      | ObStore, AStore (SSetInt _ _) _ | ObStore, AStore (SRemove _) _ => Some q'
+      | ObPollStore p, AStore op _ => if store_op_eqb op (poll_store_op p) then Some q' else None
+      | ObCommit, AStore SCommit _ => Some q'
+      | _, _ => None
+      end
+  | [] =>
+      match a with
+      | AHttp _ (HResp _ ra authentic _) =>
+          if negb (cup7 q) || authentic then
+            let p' := parse_retry_after ra in
+            if oZ_eqb (p7 q) p' then Some q
+            else Some {| cup7 := cup7 q; p7 := p'; todo7 := [ObProto p'; ObStore; ObPollStore p'; ObStore; ObCommit] |}
+          else Some q
+      | APolicy (QNextTime _ _ ps) _ | APolicy (QCheckAllowed _ _ ps _) _ | AEvent (EvProtocol ps) =>
+          if oZ_eqb (ps_poll ps) (p7 q) then Some q else None
+      | _ => Some q
+      end
+  end.
+
+Definition init7 (cup : option N) (st : storage) : q7 :=
+  {| cup7 := match cup with Some _ => true | None => false end;
+     p7 := ps_poll (snd (ctx_load (pend st))); todo7 := [] |}.
